@@ -1,10 +1,13 @@
 #!/bin/bash
-# usage: tools/round2.sh <PROP> ...  — adopt round-2 seeded changes (A->C, B->D) and run the mutation self-test on them
+# usage: [ROUND=3] tools/round2.sh <PROP> ...  — adopt later-round seeded changes (round 2: A->C, B->D from /tmp/wt2;
+# round 3: A->E, B->F from /tmp/wt3) and run the mutation self-test on them
+R=${ROUND:-2}
+if [ "$R" = 3 ]; then ROOT=/tmp/wt3; N1=E; N2=F; else ROOT=/tmp/wt2; N1=C; N2=D; fi
 for p in "$@"; do
-  for pair in "A C" "B D"; do set -- $pair
-    [ -f /tmp/wt2/$p/_out/$1/patch.diff ] || continue
+  for pair in "A $N1" "B $N2"; do set -- $pair
+    [ -f $ROOT/$p/_out/$1/patch.diff ] || continue
     [ -d /verif/seeded/$p-$2 ] && continue
-    SRC_ROOT=/tmp/wt2 NAME=$2 /verif/tools/adopt_seeded.sh $p $1
+    SRC_ROOT=$ROOT NAME=$2 /verif/tools/adopt_seeded.sh $p $1
     [ -d /verif/seeded/$p-$2 ] && /verif/tools/mutation_run.sh $p-$2
   done
 done
